@@ -1,27 +1,116 @@
 (* C06 -- cachex stays live: Load and Futures always complete if loaders do.   (PARTIAL)
    Only property theorems, each closed by [exact] of a lemma proved in
-   proofs/CacheLiveProofs.v, and Print Assumptions.
+   proofs/CacheLiveStepsProofs.v / proofs/CacheLiveProofs.v, and Print Assumptions.
 
-   The theorems are about models/CacheLive.v, a small-step ABSTRACTION of the lock / bounded
-   job queue / ticker protocol of cachex (keys, values and time erased).  Full statement of the
-   property: "provided every loader eventually returns, every Load, Get and Set call returns and
-   every Future resolves, for every parallel >= 1 and jobChanSize >= 1, even when more loads are
-   outstanding than the job queue can hold and a sweep tick is due".  What is proved: for the
-   current send order (after Unlock), every parallel >= 1, jobChanSize >= 1, shard count, and set
-   of concurrent calls (arriving at any time), and every interleaving incl. every choice of an
-   idle worker between a ready job and a ready tick:
-     - no reachable state with unfinished work is a deadlock               (cache_no_deadlock)
-     - every client/worker step strictly decreases a natural-number measure (cache_progress_measure)
-     - hence every run without new ticks/arrivals is finite, and when no thread can move every
-       call has returned, the queue is empty and all workers are idle, i.e. every job was loaded
-       and its Future resolved                                               (cache_all_complete)
-   Loader termination is built in (a ClwLoading worker can always step); fairness is the usual
-   assumption that an enabled thread eventually runs.  What is missing for a full proof: a
-   step-level refinement between cache_impl.go and CacheLive.v; the link is the scenario-level
-   correspondence of vlib/c06.py (bursts on the real cache under faketime, watchdog, the replay
-   of the pre-fix deadlock witness). *)
-From Got Require Import Base CacheLive CacheLiveProofs.
+   Full statement of the property: "provided every loader eventually returns, every Load, Get and
+   Set call returns and every Future resolves, for every parallel >= 1 and jobChanSize >= 1, even
+   when more loads are outstanding than the job queue can hold and a sweep tick is due".
+
+   PART 1 (the cache_steps_ theorems) is about models/CacheLiveSteps.v, the SMALL-STEP model of everything in
+   cachex that can block -- one step per shared access (the yield points of cachex/verif_on.go),
+   per-shard mutexes, the bounded job channel, [parallel] worker goroutines with their select
+   between a job and the sweep tick, the sweep locking every shard in turn, the ticker flag,
+   clients running Load / Get2 / Set / Future.Get2 programs -- which is stepped against the real
+   code on every run (vlib/c06s.py, stream "liveness-steps").  Proved, for the send order of the
+   code in /repo (sendJob after Unlock), every parallel >= 1, jobChanSize >= 1, shard count,
+   expiry configuration, client programs, start memory (every loading future queued), every
+   interleaving incl. every select choice, any ticker firings and clock advances:
+     - no reachable state with a call that has not returned or an unresolved future is a deadlock
+                                                                       (cache_steps_no_deadlock)
+     - every step of a client or worker strictly decreases a natural-number measure, a clock
+       advance leaves it unchanged, a ticker firing adds at most the cost of one sweep
+                                                                       (cache_steps_progress_measure)
+     - hence between ticker firings there are at most measure-many thread steps, and when no
+       thread can move every call has returned, every future is resolved, the channel is empty,
+       the workers are back in select and no tick is pending       (cache_steps_all_complete)
+     - the old send order (sendJob under the shard mutex) reaches a deadlock with parallel = 1,
+       jobChanSize = 1                                        (cache_steps_orig_deadlock_refuted)
+     - future ids never dangle: a waiter always waits for a future of the arena
+                                                                       (cache_steps_waiters_valid)
+   "Loaders return" is in the model (the step that ends a loader is always enabled, its result is
+   arbitrary).  What is NOT proved and stays an assumption: weak fairness of the Go scheduler
+   (an enabled goroutine eventually runs), so that "finite maximal runs" are what happens; real
+   loaders terminating.  The step model equals the code only as far as the per-step
+   correspondence check can tell (trusted: harness, scheduler).
+
+   PART 2 (the other cache_ theorems) are the earlier theorems about models/CacheLive.v, a coarser hand-written
+   abstraction of the same protocol (keys, values, time erased); kept unchanged. *)
+From Got Require Import Base Cache CacheSteps CacheLiveSteps CacheLiveStepsProofs CacheLive CacheLiveProofs.
 Local Open Scope nat_scope.
+
+(* ------------------------------------------------------------------ PART 1: the step model *)
+Theorem cache_steps_no_deadlock :
+  forall cfg m0 parallel progs history s,
+    csl_ord cfg = CslFixed -> 1 <= csl_cap cfg -> 1 <= parallel -> csl_mem_ok m0 = true ->
+    csl_run cfg (csl_init_on m0 parallel progs) history = Some s ->
+    csl_pending s = true ->
+    exists it, csl_is_thread it = true /\ csl_enabled cfg s it = true.
+Proof. exact csl_reachable_no_deadlock. Qed.
+Print Assumptions cache_steps_no_deadlock.
+
+Theorem cache_steps_progress_measure :
+  forall cfg s it s' ev,
+    csl_step cfg s it = Some (s', ev) ->
+    match it with
+    | CslC _ | CslW _ _ _ _ => csl_measure cfg s' < csl_measure cfg s
+    | CslAdv _ => csl_measure cfg s' = csl_measure cfg s
+    | CslTick => csl_measure cfg s' <= csl_measure cfg s + csl_tick_w cfg s
+    end.
+Proof. exact csl_measure_step. Qed.
+Print Assumptions cache_steps_progress_measure.
+
+Theorem cache_steps_all_complete :
+  forall cfg m0 parallel progs prefix run s0 s,
+    csl_ord cfg = CslFixed -> 1 <= csl_cap cfg -> 1 <= parallel -> csl_mem_ok m0 = true ->
+    csl_run cfg (csl_init_on m0 parallel progs) prefix = Some s0 ->
+    forallb (fun it => negb (csl_is_tick it)) run = true ->
+    csl_run cfg s0 run = Some s ->
+    csl_nthreads run <= csl_measure cfg s0 /\
+    ((forall it, csl_is_thread it = true -> csl_enabled cfg s it = false) ->
+     csl_pending s = false /\ csl_quiet s = true /\ csl_tk s = false).
+Proof. exact csl_all_complete. Qed.
+Print Assumptions cache_steps_all_complete.
+
+(* the send order before fix ed85568: parallel = 1, jobChanSize = 1, one shard, three Loads over
+   distinct keys, one tick: a reachable state where no thread can move while client 1 is parked
+   before sendJob with the shard mutex held, the channel full, and the only worker parked before
+   Lock() of that shard inside the sweep *)
+Theorem cache_steps_orig_deadlock_refuted :
+  exists s,
+    csl_run csl_orig_cfg (csl_init 1 csl_orig_progs) csl_orig_witness = Some s /\
+    (forall it, csl_is_thread it = true -> csl_step csl_orig_cfg s it = None) /\
+    option_map lt_pc (nth_error (csl_cl s) 1) = Some (CslLSH 1 1 1) /\
+    length (c_queue (csl_m s)) = 1 /\ csl_pending s = true.
+Proof. exact csl_orig_deadlock. Qed.
+Print Assumptions cache_steps_orig_deadlock_refuted.
+
+(* the model lets a waiter of a DANGLING future id pass ([csl_complete] answers true for an id
+   outside the arena); this never decides anything: in every reachable state (any send order) a
+   client parked before wg.Wait() waits for a future of the arena *)
+Theorem cache_steps_waiters_valid :
+  forall cfg m0 parallel progs history s i t x,
+    csl_mvalid m0 ->
+    csl_run cfg (csl_init_on m0 parallel progs) history = Some s ->
+    nth_error (csl_cl s) i = Some t -> lt_pc t = CslGFW x ->
+    exists y, c_get (c_futs (csl_m s)) x = Some y.
+Proof. exact csl_waiters_valid. Qed.
+Print Assumptions cache_steps_waiters_valid.
+
+(* non-vacuity: the same programs, tick and select choice under the current order: the witness
+   schedule is executable (client 1 leaves the critical section before sendJob), nothing is stuck
+   there, and a completion of the run ends quiet with nothing pending; the measure of the start
+   state is 45 *)
+Example c06_steps_nonvacuous :
+  let cfg := {| csl_ord := CslFixed; csl_cap := 1; csl_nsh := 1; csl_exp := {| c_normE := 3600; c_errE := 1200 |} |} in
+  let s0 := csl_init 1 csl_orig_progs in
+  let w := CslW 0 false 9%Z 0%Z in
+  option_map (csl_stuck cfg) (csl_run cfg s0 csl_orig_witness) = Some false /\
+  option_map (fun s => (csl_pending s, csl_quiet s))
+    (csl_run cfg s0 (csl_orig_witness ++ [CslC 1; CslC 2; CslC 2; w; CslC 2; w; w; w; w; w; w; CslC 1; w; w; w; w; CslC 2; w; w; w; w; w; w; w])) = Some (false, true) /\
+  csl_measure cfg s0 = 45 /\ csl_mem_ok c_init = true /\ csl_mvalid c_init.
+Proof. split; [|split; [|split; [|split]]]; try (vm_compute; reflexivity). exact csl_mvalid_init. Qed.
+
+(* ------------------------------------------------------------------ PART 2: the protocol abstraction *)
 
 Theorem cache_no_deadlock :
   forall cfg parallel clients history s,
